@@ -2,16 +2,16 @@ SPECIFICATION Spec
 CONSTANTS
   MaxLf = 2
   MaxCalls = 7
-  Names = {"A", "B"}
+  Names = {"A"}
   SetNames = {0, 1}
-  Classes = {"CHANNEL", "ZONE"}
-  OriginRefs = {0, 5}
-  RefFrom = "NONE"
-  RefTo = "NONE"
-  HeaderShare = FALSE
+  Classes = {"ZONE", "PARAMETER"}
+  OriginRefs = {0}
+  RefFrom = "PARAMETER"
+  RefTo = "ZONE"
+  HeaderShare = TRUE
   OkSet = {TRUE, FALSE}
   ForeignRefCheck = TRUE
   HeaderSetCheck = TRUE
-  ItemRefs = {0, 5}
+  ItemRefs = {0, 7}
 INVARIANT PrintLeaf
 CHECK_DEADLOCK FALSE
